@@ -213,11 +213,18 @@ fn ring_str<T: GeoNum>(cs: &[Coord<T>], pr: &dyn Fn(Coord<T>) -> String) -> Stri
 
 fn run_hull<T: GeoNum>(g: &Geometry<T>, pr: &dyn Fn(Coord<T>) -> String) -> String {
     let pts: Vec<Coord<T>> = g.exterior_coords_iter().collect();
+    // Both functions take the points as a scratch buffer they may reorder. In every second case (by the number of points)
+    // each reported hull is computed on a buffer that already went through one of the hull functions: a reordered
+    // buffer still holds the same points, so the hull of it is the hull of the input.
+    let reuse = pts.len() % 2 == 1;
     let mut a = pts.clone();
+    if reuse { let _ = graham_hull(&mut a, false); }
     let qh = quick_hull(&mut a);
     let mut b = pts.clone();
+    if reuse { let _ = quick_hull(&mut b); let _ = graham_hull(&mut b, true); }
     let gh = graham_hull(&mut b, false);
     let mut c = pts.clone();
+    if reuse { let _ = graham_hull(&mut c, false); }
     let ghi = graham_hull(&mut c, true);
     let ch = g.convex_hull();
     format!(
